@@ -35,6 +35,9 @@ fn item_desc(it: &Value) -> Value {
 /// Parameters of one layer in the layout of SymLayers.tla (dense: W row-major then the bias; kernels row-major).
 fn params_of(cfg: &Value, ks: &[f32]) -> Value {
     let u = |k: &str| cfg[k].as_u64().unwrap() as usize;
+    if str_of(cfg, "kind") == "pool" {
+        return json!({});
+    }
     if str_of(cfg, "kind") == "dense" {
         let (n_in, n_out) = (u("c"), u("f"));
         let w: Vec<Vec<f32>> = (0..n_out).map(|i| ks[i * n_in..(i + 1) * n_in].to_vec()).collect();
@@ -52,6 +55,11 @@ fn params_of(cfg: &Value, ks: &[f32]) -> Value {
 
 fn forward_from(program: &[Value], from: usize, env: &mut Env64) {
     for u in from..program.len() {
+        // the input the layer processes (its ordinary input, plus the processed input of a skip source)
+        for (k, t) in program[u]["inp"].as_array().unwrap().iter().enumerate() {
+            let v = eval64(t, env);
+            env.insert(format!("i{}_{}", u + 1, k + 1), v);
+        }
         let fwd = program[u]["fwd"].as_array().unwrap();
         for (n, t) in fwd.iter().enumerate() {
             let v = eval64(t, env);
@@ -70,12 +78,18 @@ pub fn replay_netterm(case: &Value, rep: &mut Report, rng: &mut Rng) {
     let program: Vec<Value> = case["program"].as_array().unwrap().clone();
     let id = format!("netterm:net{}:acts{}:loops{}", case["net"], case["acts"], case["loops"]);
     let has_block = items.iter().any(|it| str_of(it, "kind") == "fb");
+    let has_skips = case["connect"].as_array().map(|a| !a.is_empty()).unwrap_or(false);
     rep.nontrivial(id.clone());
     rep.checks += 1;
     let built = guarded(|| {
         let mut net = Network::new(shape_from(&case["input"]));
         for it in items.iter() {
             nets::add_layer(&mut net, &item_desc(it));
+        }
+        // additive skip connections <<target, source>> (1-based item indices)
+        net.set_accumulation(nets::accumulation("add"), nets::accumulation("mean"));
+        for c in case["connect"].as_array().map(|a| a.as_slice()).unwrap_or(&[]) {
+            net.connect(c[1].as_u64().unwrap() as usize - 1, c[0].as_u64().unwrap() as usize - 1);
         }
         net
     });
@@ -142,6 +156,11 @@ pub fn replay_netterm(case: &Value, rep: &mut Report, rng: &mut Rng) {
         let mut want_gk: Vec<Vec<f64>> = vec![Vec::new(); last];
         for u in (0..last).rev() {
             want_gk[u] = program[u]["gk"].as_array().unwrap().iter().map(|t| eval64(t, &env)).collect();
+            // gradient w.r.t. the processed input: own part plus the parts of the later layers that read it
+            let gin: Vec<f64> = program[u]["gin"].as_array().unwrap().iter().map(|t| eval64(t, &env)).collect();
+            for (k, v) in gin.iter().enumerate() {
+                env.insert(format!("e{}_{}", u + 1, k + 1), *v);
+            }
             let prev: Vec<f64> = program[u]["gprev"].as_array().unwrap().iter().map(|t| eval64(t, &env)).collect();
             for (i, v) in prev.iter().enumerate() {
                 env.insert(format!("d{}_{}", u, i + 1), *v);
@@ -204,10 +223,14 @@ pub fn replay_netterm(case: &Value, rep: &mut Report, rng: &mut Rng) {
             let u_end = first[i] + count[i];
             let no = usize_of(&program[u_end - 1], "no");
             let got = &posts[i + 1];
-            let bad = got.len() != no || (0..no).any(|n| !near(got[n], env[&format!("a{}_{}", u_end, n + 1)], 1e-5));
+            // entry i of the vector `forward` returns is the value passed on after item i: when the next item is the target
+            // of a skip connection that is the accumulated input it processes
+            let next_is_target = case["connect"].as_array().map(|a| a.iter().any(|c| c[0].as_u64() == Some(i as u64 + 2))).unwrap_or(false);
+            let name = |n: usize| if next_is_target { format!("i{}_{}", u_end + 1, n + 1) } else { format!("a{}_{}", u_end, n + 1) };
+            let bad = got.len() != no || (0..no).any(|n| !near(got[n], env[&name(n)], 1e-5));
             if bad {
                 forward_ok = false;
-                let want: Vec<f64> = (0..no).map(|n| env[&format!("a{}_{}", u_end, n + 1)]).collect();
+                let want: Vec<f64> = (0..no).map(|n| env[&name(n)]).collect();
                 let is_block = str_of(&items[i], "kind") == "fb";
                 rep.mismatch(
                     if is_block { "C11" } else { "C02" },
@@ -216,6 +239,9 @@ pub fn replay_netterm(case: &Value, rep: &mut Report, rng: &mut Rng) {
                     json!({"round": round, "item": i, "observed": got, "expected": want}),
                     case,
                 );
+                if has_skips {
+                    rep.mismatch("C16", "skip_network_forward_term_mode", &id, json!({"round": round, "item": i, "observed": got, "expected": want}), case);
+                }
                 break;
             }
         }
@@ -244,8 +270,15 @@ pub fn replay_netterm(case: &Value, rep: &mut Report, rng: &mut Rng) {
                     }
                 }
                 let want = &want_gk[u];
+                if want.is_empty() {
+                    continue; // max-pool: no parameters
+                }
                 let bad = if got.len() != want.len() { Some(usize::MAX) } else { (0..want.len()).find(|q| !near(got[*q], want[*q], 1e-4)) };
                 if let Some(q) = bad {
+                    if has_skips {
+                        rep.mismatch("C16", "skip_network_gradient_term_mode", &id,
+                                     json!({"round": round, "item": i, "kind": program[u]["cfg"]["kind"], "act": program[u]["act"], "observed": got, "derivative": want}), case);
+                    }
                     rep.mismatch(
                         "C01",
                         if is_block { "gradient_is_not_derivative_term_mode_network:feedback" } else { "gradient_is_not_derivative_term_mode_network" },
